@@ -99,7 +99,7 @@ func aliveScenarios(tier string) []*simScenario {
 	out := []*simScenario{scenStress(dev)}
 	for _, b := range []*simScenario{
 		scenSnap(snapSeeds[snapSeedIndex("lagging")], dev, false, true, 2),
-		scenMember(memberSeeds[0], dev, 2, 0, true, nil, 1),
+		scenMember(memberSeedByName("3v"), dev, 2, 0, true, nil, 1),
 		scenTransfer(xferSeeds[0], dev, true),
 		scenClient("leader", []string{"T:1", "run"}, []string{"update", "read", "barrier", "dirty", "batch2"}, []string{"transfer:2", "demote:1"}, dev, false, true, 2, 2),
 	} {
@@ -124,7 +124,8 @@ func infoScenarios(tier string) []*simScenario {
 		scenSnap(snapSeeds[snapSeedIndex("lagging")], dev+1, false, true, 2),
 		scenSnap(snapSeeds[snapSeedIndex("lagging")], dev, true, false, 1),
 		scenSnap(snapSeeds[snapSeedIndex("full")], dev+1, false, true, 2),
-		scenMember(memberSeeds[0], dev+1, 2, 0, true, nil, 1),
+		scenMember(memberSeedByName("3v"), dev+1, 2, 0, true, nil, 1),
+		scenMember(memberSeedByName("phantom-config"), dev, 1, 0, false, nil, 0),
 	} {
 		sc := cloneScenario(b)
 		sc.Name = "info-" + b.Name
